@@ -314,3 +314,58 @@ func (R *Run) ruleSpecialFolder() {
 	}
 	R.floor("special-folder-last-item", 2)
 }
+
+// rulePathCountAgree: the special-folder predicates look at Items[Len()-1] (Len = the announced item count) while
+// ReadPath walks every decoded item: both are about the same path only if the decoder stores exactly as many items as
+// the count announces.
+func (R *Run) rulePathCountAgree() {
+	P := R.P
+	R.rule("path-count-agree", "FilePath.Write appends to Items only inside a counting loop i = 0 .. ItemCount-1 (bound read from the ItemCount it just decoded): the items the guards inspect (Items[Len()-1]) and the items ReadPath resolves are the same list")
+	fn := R.mustFn("(*hotline.FilePath).Write")
+	if fn == nil {
+		return
+	}
+	R.analysed(fname(fn))
+	n := 0
+	for _, ci := range callsIn(fn) {
+		c := ci.Common()
+		if calleeName(c) != "builtin.append" {
+			continue
+		}
+		if f, ok := loadedField(c.Args[0]); !ok || f != "hotline.FilePath.Items" {
+			continue
+		}
+		n++
+		bounded := false
+		for _, b := range fn.Blocks {
+			for _, ins := range b.Instrs {
+				phi, isPhi := ins.(*ssa.Phi)
+				if !isPhi {
+					break
+				}
+				lo, hi, ok := indexRange(phi)
+				if !ok || lo != 0 || !b.Dominates(ci.Block()) || !inLoop(ci.Block()) {
+					continue
+				}
+				// the body (where the append is) is entered only on the true edge of i < hi
+				if len(b.Succs) == 2 && !(b.Succs[0] == ci.Block() || b.Succs[0].Dominates(ci.Block())) {
+					continue
+				}
+				if P.reaches(hi, func(x ssa.Value) bool {
+					fa, isFA := x.(*ssa.FieldAddr)
+					if !isFA {
+						return false
+					}
+					f, _ := fieldOf(fa)
+					return f == "hotline.FilePath.ItemCount"
+				}) {
+					bounded = true
+				}
+			}
+		}
+		R.check(bounded, "path-count-agree", fmt.Sprintf("%s: append to Items #%d", fname(fn), n), P.ipos(ci), "inside the loop i < ItemCount", "items are appended without the announced count bounding their number: a path that carries more items than it announces is judged by its announced last item (upload / drop-box exceptions) but resolved through all of them")
+	}
+	if n == 0 {
+		R.und("path-count-agree", fname(fn), P.pos(fn.Pos()), "no append to Items found (decoder changed shape)")
+	}
+}
